@@ -484,7 +484,12 @@ struct Stats {
     panic: u64,
     with_err: u64,
     edges_hit: std::collections::HashSet<(String, String, String, String)>,
+    /// rows emitted per signature (the first few verbatim, the rest only counted)
+    per_sig: HashMap<String, u64>,
+    suppressed: u64,
 }
+
+const MAX_ROWS_PER_SIGNATURE: u64 = 5;
 
 async fn run_program(mode: String, prog: Value, table: Arc<Table>, tm: Arc<Tmpl>) -> (Vec<Value>, Vec<(String, String, String)>, [u64; 4]) {
     let pre = prog["pre"].as_str().unwrap().to_string();
@@ -663,6 +668,8 @@ fn main() {
         "type": "summary", "programs": stats.programs, "calls": stats.calls, "ok": stats.ok, "err": stats.err,
         "panic": stats.panic, "programs_with_refused_call": stats.with_err,
         "table_edges": table.edges.len(), "table_edges_hit_per_mode": stats.edges_hit.len(),
+        "rows_suppressed": stats.suppressed,
+        "rows_per_signature": stats.per_sig,
     }));
     out.finish();
     // background tasks of closed connections may still be winding down; do not wait for them
@@ -689,7 +696,18 @@ fn collect(
                 stats.edges_hit.insert((mode.clone(), h.0, h.1, h.2));
             }
             for row in rows {
-                out.push(&row);
+                let k = format!(
+                    "{}|{}|{}|{}|{}|{}|{}|{}|{}|{}",
+                    row["type"], row["rule"], row["mode"], row["pre"], row["call"], row["t"], row["d"], row["sig"],
+                    row["field"], row["failure_site"]
+                );
+                let n = stats.per_sig.entry(k).or_insert(0);
+                *n += 1;
+                if *n <= MAX_ROWS_PER_SIGNATURE || row["type"] == "tool_error" {
+                    out.push(&row);
+                } else {
+                    stats.suppressed += 1;
+                }
             }
         }
         Err(e) => out.push(&json!({"type": "tool_error", "what": format!("program task failed: {e}")})),
